@@ -50,6 +50,42 @@ theorem propagate_order_irrelevant (g : Graph) (o1 o2 : Nat → List Edge → Li
   intro v
   rw [(propagate_lfp g o1 h1).1 v, (propagate_lfp g o2 h2).1 v]
 
+/-- **stops_early_underapprox** — ANY iteration scheme whose marks are sound (only functions that can really block) but
+    which stops at a set that is not closed under "calls a blocking callee" misses a function that can block: the least
+    fixed point over the WHOLE program is the only sound stopping point. -/
+theorem stops_early_underapprox (g : Graph) (S : Nat → Prop) (hsound : ∀ v, S v → Reach g v)
+    (hnot : ¬ Closed g S) : ∃ v, Reach g v ∧ ¬ S v := by
+  apply Classical.byContradiction
+  intro hno
+  apply hnot
+  have hall : ∀ v, Reach g v → S v := by
+    intro v hv
+    apply Classical.byContradiction
+    intro hs
+    exact hno ⟨v, hv, hs⟩
+  exact ⟨fun v hv => hall v (Reach.base hv), fun a b hab hb => hall a (Reach.step hab (hsound b hb))⟩
+
+/-- the seeded scenario: package 0 = main (imports lib), package 1 = lib; function 0 = yield (blocks intrinsically),
+    1 = checkpoint, 2 = (*W).Step — all in main, declared callers first —, 3 = the instance lib.Apply[*main.W], analysed
+    in lib, calling Step through its type parameter -/
+def seededGraph : PGraph :=
+  { g := ⟨[0], [(2, 1), (1, 0), (3, 2)]⟩
+    pkg := fun f => if f = 3 then 1 else 0
+    imports := fun p q => p == 0 && q == 1 }
+
+/-- **partial_iteration_unsound** — the scheme that revisits only changed packages and their importers stops before the
+    global fixed point: on the seeded scenario it never revisits `lib`, so the instance (3) is not marked although it
+    reaches the suspending function; the real loop (every visiting order) marks it. -/
+theorem partial_iteration_unsound :
+    Reach seededGraph.g 3 ∧ 3 ∉ blockingDep seededGraph ∧ 3 ∈ blocking idOrd seededGraph.g ∧
+    ¬ Closed seededGraph.g (fun v => v ∈ blockingDep seededGraph) := by
+  refine ⟨?_, by decide, by decide, ?_⟩
+  · exact .step (b := 2) (by decide) (.step (b := 1) (by decide) (.step (b := 0) (by decide) (.base (by decide))))
+  · intro h
+    have := h.2 3 2 (by decide) (by decide)
+    revert this
+    decide
+
 /-! ### Flattening -/
 
 /-- **flatten_labels_nodup** — `caseCounter` never hands out a case number twice: the labels of the flattened code of
